@@ -249,7 +249,7 @@ CLAIMED = {
               "trace-validated (Trace_Connections)."),
         design_ref="DESIGN.md section 5, C06",
         note=("Trusted: TLC; the long double term interpreter; EclipseGrid::getCellDims and UnitSystem for the SI inputs.  "
-              "Histories use vertical wells in their head column and explicit CF/Kh entries; COMPLUMP, COMPSEGS and CSKIN are not modelled."),
+              "Histories use explicit CF/Kh entries; vertical wells (input and track order, with COMPLUMP) and one well with laterals; COMPSEGS and CSKIN are not modelled."),
         technique="TLC oracle for the Peaceman case analysis + TLC model checking and trace validation of the connection list state machine",
     ),
     "C07": dict(
